@@ -141,6 +141,35 @@ fn judge_finder(rep: &mut Report, fields: &HashMap<String, Vec<(String, usize)>>
     }
 }
 
+/// requests constrained to a set of option letters (what the option-family parsers do): every occurrence of
+/// `base` / `base`+allowed letter is returned exactly once; the exact-tag ones first, then the lettered ones in input order
+fn judge_finder_constrained(rep: &mut Report, fields: &HashMap<String, Vec<(String, usize)>>, base: &str, letters: &[&str]) {
+    let mut tracker = FieldConsumptionTracker::new();
+    let mut got: Vec<usize> = Vec::new();
+    for _ in 0..200 {
+        match find_field_with_variant_sequential_constrained(fields, base, &mut tracker, Some(letters)) {
+            Some((_, _, p)) => got.push(p),
+            None => break,
+        }
+    }
+    let exact: Vec<usize> = fields.get(base).map(|v| v.iter().map(|x| x.1).collect()).unwrap_or_default();
+    let mut lettered: Vec<usize> = fields.iter().filter(|(k, _)| k.starts_with(base) && k.len() == base.len() + 1 && letters.contains(&&k[base.len()..]))
+        .flat_map(|(_, v)| v.iter().map(|x| x.1)).collect();
+    lettered.sort();
+    let mut want = exact.clone();
+    want.sort();
+    want.extend(lettered.iter());
+    rep.case(&format!("finderc {base} {letters:?} {want:?}"), !want.is_empty());
+    if got != want {
+        let mut g2 = got.clone();
+        g2.sort();
+        let mut w2 = want.clone();
+        w2.sort();
+        let kind = if g2 != w2 { "lost-or-twice" } else { "out-of-order" };
+        rep.fail(&format!("finder|sequential_constrained|constrained-{kind}"), json!({"base": base, "letters": letters, "returned": got, "expected": want, "fields": canon_map(fields)}));
+    }
+}
+
 fn judge_split(rep: &mut Report, fields: &HashMap<String, Vec<(String, usize)>>, cfg_name: &str, cfg: &SequenceConfig) {
     let r = std::panic::catch_unwind(|| split_into_sequences(fields, cfg));
     rep.case(&format!("split {cfg_name} {}", canon_map(fields)), true);
@@ -185,14 +214,29 @@ pub fn run(o: &Opts) -> Report {
             let eol = if n % 4 == 3 { "\r\n" } else { "\n" };
             let text = tok::render(&msg.chunks, eol, n % 2 == 0);
             // the legacy API receives block 4 without the terminator line
-            let text = text.trim_end_matches('-').to_string();
+            let text = match text.strip_suffix("\n-") { Some(t) => format!("{t}\n"), None => match text.strip_suffix("\r\n-") { Some(t) => format!("{t}\r\n"), None => text } };
             // contents whose line starts with ':' are outside the well-formedness hypothesis
             let wf = !msg.chunks.iter().any(|c| c.content.split('\n').skip(1).any(|l| l.starts_with(':')) || c.content.contains(':') && c.content.starts_with(':'));
             judge_tokens(&mut rep, &text, "valid", wf);
             if n < 1 { rep.sample(json!({"class": "valid", "type": code, "text": text})); }
             if let Ok(m) = parse_block4_fields(&text) {
                 for base in ["50", "52", "59", "20", "61", "32"] { judge_finder(&mut rep, &m, base); }
+                for (base, letters) in [("50", vec!["A", "C", "K", "L"]), ("50", vec!["C", "L"]), ("50", vec!["A", "F", "K"]), ("50", vec!["F", "G", "H"]),
+                                        ("50", vec!["A", "C", "F", "G", "H", "K", "L"]), ("52", vec!["A", "D"]), ("59", vec!["A", "F"]), ("57", vec!["A", "B", "C", "D"])] {
+                    judge_finder_constrained(&mut rep, &m, base, &letters);
+                }
                 for (name, cfg) in &configs { judge_split(&mut rep, &m, name, cfg); }
+            }
+            // the last field's content ends in characters that also occur in block terminators
+            if n % 3 == 0 {
+                for tail in ["-", " -", "--", "}", "-X-"] {
+                    let mut c4 = msg.chunks.clone();
+                    let last = c4.len() - 1;
+                    c4[last].content.push_str(tail);
+                    let t4 = tok::render(&c4, eol, false);
+                    judge_tokens(&mut rep, t4.trim_end_matches(['\n', '\r']), "last-content-ends-in-dash", wf);
+                    judge_tokens(&mut rep, &t4, "last-content-ends-in-dash-nl", wf);
+                }
             }
             // mutants: leading junk before the first field, a content line starting with ':', an empty value
             if n % 5 == 0 {
@@ -206,6 +250,20 @@ pub fn run(o: &Opts) -> Report {
                 c3[i].content = String::new();
                 judge_tokens(&mut rep, &tok::render(&c3, "\n", false), "empty-value", true);
             }
+        }
+    }
+    // field maps with several 50a occurrences in every order of option letters (a 50K before a 50C, …)
+    for _ in 0..(if o.thorough() { 4000 } else { 400 }) {
+        let n = rng.range(2, 6);
+        let mut m: HashMap<String, Vec<(String, usize)>> = HashMap::new();
+        let mut stamp = 65536;
+        for i in 0..n {
+            stamp += rng.range(1, 4);
+            let l = *rng.pick(&["A", "C", "F", "G", "H", "K", "L"]);
+            m.entry(format!("50{l}")).or_default().push((format!("V{i}"), stamp));
+        }
+        for letters in [vec!["A", "C", "K", "L"], vec!["A", "C", "F", "G", "H", "K", "L"], vec!["C", "L"], vec!["A", "F", "K"], vec!["A", "K"], vec!["F", "G", "H"]] {
+            judge_finder_constrained(&mut rep, &m, "50", &letters);
         }
     }
     for _ in 0..(if o.thorough() { 20000 } else { 1500 }) {
